@@ -75,7 +75,33 @@ def _adapters():
         r = bpol.xBinnedPolarizationCube.__iadd__(me, ot)
         return r.E_MEAN, r.MU, r.COUNTS, r.W2, r.I, r.Q, r.U
 
+    def ppiadd(a):
+        me = ns(COUNTS=a['self_COUNTS'].copy(), ERROR=a['self_ERROR'].copy(), _check_iadd=lambda *x, **k: None)
+        ot = ns(COUNTS=a['other_COUNTS'].copy(), ERROR=a['other_ERROR'].copy())
+        r = bmisc.xBinnedPulseProfile.__iadd__(me, ot)
+        return r.COUNTS, r.ERROR
+
+    def pha1iadd(a):
+        me = ns(RATE=a['self_RATE'].copy(), STAT_ERR=a['self_STAT_ERR'].copy(), _check_iadd=lambda *x, **k: None)
+        ot = ns(RATE=a['other_RATE'].copy(), STAT_ERR=a['other_STAT_ERR'].copy())
+        r = bpol.xBinnedCountSpectrum.__iadd__(me, ot)
+        return r.RATE, r.STAT_ERR
+
+    def mdpcube(a):
+        def mk(pref):
+            o = ns(**{k: a['%s_%s' % (pref, k)].copy() for k in ('E_MEAN', 'MU', 'COUNTS', 'W2', 'I')})
+            setattr(o, '_xBinnedFileBase__data_dict', dict(E_MEAN=o.E_MEAN, MU=o.MU, I=o.I))
+            return o
+        me, ot = mk('self'), mk('other')
+        me._check_iadd = lambda *x, **k: None
+        me._weighted_average = lambda other, c, w, **k: bbase.xBinnedFileBase._weighted_average(me, other, c, w, **k)
+        r = bpol.xBinnedMDPMapCube.__iadd__(me, ot)
+        return r.E_MEAN, r.COUNTS, r.MU, r.W2, r.I, r.MDP_99, r.N_EFF, r.FRAC_W
+
     A = {
+        'pp_iadd': ppiadd,
+        'pha1_iadd': pha1iadd,
+        'mdpcube_iadd': mdpcube,
         'pcube_iadd': pcube,
         'lc_iadd': lciadd,
         'weighted_average': wavg,
@@ -168,12 +194,16 @@ def domain(name, lean, g, n):
         v = u(-8., 8., n)
     elif name in ('half_side_x', 'half_side_y'):
         v = u(5., 7.5, n)
-    elif name in ('self_I', 'other_I') and lean == 'pcube_iadd':          # total intensity of the bin in each file: positive, or exactly zero (empty bin)
+    elif name in ('self_I', 'other_I') and lean in ('pcube_iadd', 'mdpcube_iadd'):          # total intensity of the bin in each file: positive, or exactly zero (empty bin)
         v = numpy.where(u(0, 1, n) < 0.75, u(0.5, 5000., n), 0.)
     elif name in ('self_EXPOSURE', 'other_EXPOSURE'):                   # exposures of the two light curves in a bin: positive or exactly zero
         v = numpy.where(u(0, 1, n) < 0.75, u(0.5, 2000., n), 0.)
-    elif name in ('self_COUNTS', 'other_COUNTS', 'self_ERROR', 'other_ERROR'):
+    elif name in ('self_COUNTS', 'other_COUNTS') and lean == 'mdpcube_iadd':
+        v = g.integers(1, 500, n).astype(float)
+    elif name in ('self_COUNTS', 'other_COUNTS', 'self_ERROR', 'other_ERROR', 'self_RATE', 'other_RATE', 'self_STAT_ERR', 'other_STAT_ERR'):
         v = u(0., 500., n)
+    elif name in ('self_W2', 'other_W2', 'self_MU', 'other_MU', 'self_E_MEAN', 'other_E_MEAN') and lean == 'mdpcube_iadd':
+        v = u(0.05, 8., n)
     elif name in ('a_2', 'b_2') and lean == 'weighted_average':      # weights of the two files: positive, exactly zero (empty bin) or negative
         v = numpy.where(u(0, 1, n) < 0.6, u(0.01, 50., n), numpy.where(u(0, 1, n) < 0.6, 0., u(-5., -0.01, n)))
     elif name == 'roll_angle':
